@@ -25,7 +25,7 @@ inductive R (α : Type) where
   | ok (a : α)
   | fail
   | panic (site : String)
-  deriving Repr
+  deriving Repr, DecidableEq
 
 @[inline] def R.bind {α β : Type} (x : R α) (f : α → R β) : R β :=
   match x with
@@ -313,68 +313,54 @@ def evalWin (expr : List Char) (info : Info) (w : Walker) : Outcome Plan :=
 def addU64 (a b : Nat) : R Nat :=
   if a + b ≤ U64MAX then .ok (a + b) else .panic "u64 add overflow"
 
+/-- fpo, first half: the callee `esp`, the address of the return-address slot and the caller's
+    `eip` — `*(esp + frame_size)`, or one word further when the callee is a context frame (no
+    grand callee) and the slot holds the callee's own `eip` (a "leftover return address"). -/
+def fpoRet (info : Info) (w : Walker) : R (UInt32 × Nat × UInt32) :=
+  (R.ofOpt (winFrameSize info w.gcParam)).bind fun fs =>
+  (R.ofOpt (w.reg "esp")).bind fun esp =>
+  (addU64 esp.toNat fs.toNat).bind fun a0 =>
+  (R.ofOpt (w.mem a0)).bind fun eip0 =>
+  if !w.hasGC then
+    (R.ofOpt (w.reg "eip")).bind fun calleeEip =>
+    if eip0 = calleeEip then
+      (addU64 a0 4).bind fun a1 =>
+      (R.ofOpt (w.mem a1)).bind fun e1 => .ok (esp, a1, e1)
+    else .ok (esp, a0, eip0)
+  else .ok (esp, a0, eip0)
+
+/-- fpo: `%ebx` is passed through (set first) when the function does not allocate a base pointer -/
+def fpoPre (abp : Bool) (w : Walker) : List (String × Nat) :=
+  if abp then []
+  else match w.reg "ebx" with
+    | some ebx => [("ebx", ebx.toNat)]
+    | none => []
+
+/-- fpo: the caller's `ebp` — `*(esp + grand_callee_params + saved_regs - 8)` (`checked_sub`) when
+    the function allocates a base pointer, else the callee's `ebp` (required). -/
+def fpoEbp (info : Info) (abp : Bool) (w : Walker) (esp : UInt32) : R UInt32 :=
+  if abp then
+    (addU64 esp.toNat w.gcParam.toNat).bind fun s1 =>
+    (addU64 s1 info.sav.toNat).bind fun s2 =>
+    if s2 < 8 then .fail else R.ofOpt (w.mem (s2 - 8))
+  else R.ofOpt (w.reg "ebp")
+
 /-- `walk_with_stack_win_fpo` after `clear_stack_win_caller_registers` -/
 def fpoPlan (info : Info) (abp : Bool) (w : Walker) : Outcome Plan :=
-  let failed (sets : List (String × Nat)) : Outcome Plan := .ok { sets := sets, done := false }
-  match winFrameSize info w.gcParam with
-  | none => failed []
-  | some fs =>
-  match w.reg "esp" with
-  | none => failed []
-  | some esp =>
-  match addU64 esp.toNat fs.toNat with
+  match fpoRet info w with
   | .panic s => .panic s
-  | .fail => failed []
-  | .ok eipAddr0 =>
-  match w.mem eipAddr0 with
-  | none => failed []
-  | some eip0 =>
-  -- leftover return address: only in a context frame, and only if `*(esp+frame) == callee eip`
-  let skip : R (Nat × UInt32) :=
-    if !w.hasGC then
-      match w.reg "eip" with
-      | none => .fail
-      | some calleeEip =>
-        if eip0 = calleeEip then
-          match addU64 eipAddr0 4 with
-          | .panic s => .panic s
-          | .fail => .fail
-          | .ok a1 =>
-            match w.mem a1 with
-            | none => .fail
-            | some e1 => .ok (a1, e1)
-        else .ok (eipAddr0, eip0)
-    else .ok (eipAddr0, eip0)
-  match skip with
-  | .panic s => .panic s
-  | .fail => failed []
-  | .ok (eipAddr, callerEip) =>
-  match addU64 eipAddr 4 with
-  | .panic s => .panic s
-  | .fail => failed []
-  | .ok callerEsp =>
-  let tail (pre : List (String × Nat)) (ebp : UInt32) : Outcome Plan :=
-    .ok { sets := pre ++ [("eip", callerEip.toNat), ("esp", callerEsp), ("ebp", ebp.toNat)], done := true }
-  if abp then
-    match addU64 esp.toNat w.gcParam.toNat with
+  | .fail => .ok { sets := [], done := false }
+  | .ok (esp, eipAddr, callerEip) =>
+    match addU64 eipAddr 4 with
     | .panic s => .panic s
-    | .fail => failed []
-    | .ok s1 =>
-    match addU64 s1 info.sav.toNat with
-    | .panic s => .panic s
-    | .fail => failed []
-    | .ok s2 =>
-      if s2 < 8 then failed []          -- `.checked_sub(8)?`
-      else match w.mem (s2 - 8) with
-        | none => failed []
-        | some ebp => tail [] ebp
-  else
-    let pre : List (String × Nat) := match w.reg "ebx" with
-      | some ebx => [("ebx", ebx.toNat)]
-      | none => []
-    match w.reg "ebp" with
-    | none => failed pre
-    | some ebp => tail pre ebp
+    | .fail => .ok { sets := [], done := false }
+    | .ok callerEsp =>
+      match fpoEbp info abp w esp with
+      | .panic s => .panic s
+      | .fail => .ok { sets := fpoPre abp w, done := false }
+      | .ok ebp =>
+        .ok { sets := fpoPre abp w ++ [("eip", callerEip.toNat), ("esp", callerEsp), ("ebp", ebp.toNat)],
+              done := true }
 
 /-! ## the mutable half: `CfiStackWalker<CONTEXT_X86>` -/
 
@@ -500,14 +486,16 @@ def walkFpo (names : List String) (i : SInfo) (w : Walker) (c : Caller) :
     record covers the address). framedata is preferred to fpo; an fpo record is not tried
     when a framedata record exists and fails; STACK CFI runs iff STACK WIN returned `None`,
     on the walker as STACK WIN left it. -/
-def walkSelected (names : List String) (fd fpo : Option SInfo)
-    (cfi : Option (Caller → Option Caller)) (w : Walker) (c : Caller) : Outcome (Bool × Caller) :=
-  let win : Outcome (Bool × Caller) :=
-    match fd, fpo with
-    | some i, _ => walkFramedata names i w c
-    | none, some i => walkFpo names i w c
-    | none, none => .ok (false, c)
-  match win with
+def winResult (names : List String) (fd fpo : Option SInfo) (w : Walker) (c : Caller) :
+    Outcome (Bool × Caller) :=
+  match fd, fpo with
+  | some i, _ => walkFramedata names i w c
+  | none, some i => walkFpo names i w c
+  | none, none => .ok (false, c)
+
+/-- `win_stack_result.or_else(|| … walk_with_stack_cfi …)` -/
+def orElseCfi (cfi : Option (Caller → Option Caller)) :
+    Outcome (Bool × Caller) → Outcome (Bool × Caller)
   | .panic s => .panic s
   | .ok (true, c') => .ok (true, c')
   | .ok (false, c') =>
@@ -517,6 +505,10 @@ def walkSelected (names : List String) (fd fpo : Option SInfo)
       match f c' with
       | some c'' => .ok (true, c'')
       | none => .ok (false, c')
+
+def walkSelected (names : List String) (fd fpo : Option SInfo)
+    (cfi : Option (Caller → Option Caller)) (w : Walker) (c : Caller) : Outcome (Bool × Caller) :=
+  orElseCfi cfi (winResult names fd fpo w c)
 
 /-! ## line protocol
 
